@@ -263,6 +263,17 @@ func (c *Client) Signer(ctx context.Context, privateKeyId, publicKeyId string) (
 	if err != nil {
 		return nil, fmt.Errorf("invalid public key material: %w", err)
 	}
+	// The key material must be of the kind announced by the key attributes: Sign relies on it.
+	switch signer.alg {
+	case kmip.CryptographicAlgorithmRSA:
+		if _, ok := signer.publicKey.(*rsa.PublicKey); !ok {
+			return nil, fmt.Errorf("invalid public key material: got a %T for algorithm %s", signer.publicKey, ttlv.EnumStr(signer.alg))
+		}
+	case kmip.CryptographicAlgorithmEC, kmip.CryptographicAlgorithmECDSA:
+		if _, ok := signer.publicKey.(*ecdsa.PublicKey); !ok {
+			return nil, fmt.Errorf("invalid public key material: got a %T for algorithm %s", signer.publicKey, ttlv.EnumStr(signer.alg))
+		}
+	}
 
 	return signer, nil
 }
@@ -351,7 +362,11 @@ func (c *cryptoSigner) Sign(rand io.Reader, digest []byte, opts crypto.SignerOpt
 		// Check of signature is raw concatenation of r and s, or if it's ASN.1.
 		// One way to do it is to check the signature size. If it's exactly 2 times the size of curve size
 		// then it's raw. ANS.1 will always have more bytes.
-		curve := c.publicKey.(*ecdsa.PublicKey).Curve
+		pub, ok := c.publicKey.(*ecdsa.PublicKey)
+		if !ok {
+			return nil, fmt.Errorf("unexpected public key type %T for algorithm %s", c.publicKey, ttlv.EnumStr(c.alg))
+		}
+		curve := pub.Curve
 		if len(resp.SignatureData) == 2*((curve.Params().BitSize+7)/8) {
 			// Need to convert to ASN.1
 			resp.SignatureData, err = convertRawECDSAToASN1DER(resp.SignatureData, curve)
@@ -380,12 +395,19 @@ func (c *cryptoSigner) verifySignerKeyAttributes(ctx context.Context, id string,
 	for _, attr := range resp.Attribute {
 		switch attr.AttributeName {
 		case kmip.AttributeNameObjectType:
-			if ot := attr.AttributeValue.(kmip.ObjectType); ot != expectedObjectType {
+			ot, ok := attr.AttributeValue.(kmip.ObjectType)
+			if !ok {
+				return "", fmt.Errorf("unexpected value type %T for attribute %s", attr.AttributeValue, attr.AttributeName)
+			}
+			if ot != expectedObjectType {
 				return "", fmt.Errorf("unexpected object type (got %s, wants %s)", ttlv.EnumStr(ot), ttlv.EnumStr(expectedObjectType))
 			}
 		case kmip.AttributeNameCryptographicAlgorithm:
 			// Save private key algorithm
-			alg := attr.AttributeValue.(kmip.CryptographicAlgorithm)
+			alg, ok := attr.AttributeValue.(kmip.CryptographicAlgorithm)
+			if !ok {
+				return "", fmt.Errorf("unexpected value type %T for attribute %s", attr.AttributeValue, attr.AttributeName)
+			}
 			if alg != kmip.CryptographicAlgorithmRSA && alg != kmip.CryptographicAlgorithmEC && alg != kmip.CryptographicAlgorithmECDSA {
 				return "", fmt.Errorf("unsupported cryptographic algorithm %s", ttlv.EnumStr(alg))
 			}
@@ -397,11 +419,19 @@ func (c *cryptoSigner) verifySignerKeyAttributes(ctx context.Context, id string,
 
 		case kmip.AttributeNameLink:
 			// Get public or private key id
-			if ln := attr.AttributeValue.(kmip.Link); ln.LinkType == kmip.LinkTypePublicKeyLink && expectedObjectType == kmip.ObjectTypePrivateKey || ln.LinkType == kmip.LinkTypePrivateKeyLink && expectedObjectType == kmip.ObjectTypePublicKey {
+			ln, ok := attr.AttributeValue.(kmip.Link)
+			if !ok {
+				return "", fmt.Errorf("unexpected value type %T for attribute %s", attr.AttributeValue, attr.AttributeName)
+			}
+			if ln.LinkType == kmip.LinkTypePublicKeyLink && expectedObjectType == kmip.ObjectTypePrivateKey || ln.LinkType == kmip.LinkTypePrivateKeyLink && expectedObjectType == kmip.ObjectTypePublicKey {
 				linkedKeyId = ln.LinkedObjectIdentifier
 			}
 		case kmip.AttributeNameCryptographicUsageMask:
-			if cum := attr.AttributeValue.(kmip.CryptographicUsageMask); cum&expectedUsageMask == 0 {
+			cum, ok := attr.AttributeValue.(kmip.CryptographicUsageMask)
+			if !ok {
+				return "", fmt.Errorf("unexpected value type %T for attribute %s", attr.AttributeValue, attr.AttributeName)
+			}
+			if cum&expectedUsageMask == 0 {
 				return "", fmt.Errorf("unexpected usage mask (got %s, wants %s)", ttlv.BitmaskStr(cum, "|"), ttlv.BitmaskStr(expectedUsageMask, "|"))
 			}
 		}
